@@ -19,7 +19,8 @@ Reference models
 
 Enumeration (all exhaustive, deterministic order, simplest first)
     alternatives, alt_lists, enum_sized, count_sized           -- size-bounded spaces
-    family_follow, family_follow2, family_prefix, family_split, family_hidden  -- directed families
+    family_follow, family_follow2, family_prefix, family_split, family_wide,
+    family_seq, family_diverge, family_hidden                  -- directed families
 """
 
 import itertools
@@ -32,16 +33,56 @@ END = "$END$"
 class TokCfg:
     """Tokenizer configuration + the tokens the harness can put into a text."""
 
-    def __init__(self, key, tokenizer_str, tokens, synonyms=None, keywords=None):
+    def __init__(self, key, tokenizer_str, tokens, synonyms=None, keywords=None, sep=" ",
+                 default_skip=("SPACE",)):
         self.key = key                      # JSON-able identification
         self.tokenizer_str = tokenizer_str
         self.tokens = tuple(tokens)         # ((terminal name, value text), ...): the input alphabet
         self.synonyms = synonyms
         self.keywords = keywords
         self.terms = tuple(dict.fromkeys(n for n, _ in self.tokens))
+        self.sep = sep                      # text between two tokens ("" when blanks are tokens of the menu)
+        self.default_skip = frozenset(default_skip)   # what skip_tokens=None means for this tokenizer
 
     def text(self, toks):
-        return " ".join(v for _, v in toks)
+        return self.sep.join(v for _, v in toks)
+
+    def valid_input(self, toks):
+        """With sep == "" blanks are written by the harness as SPACE tokens of the menu: two adjacent
+        blanks would be one token and a trailing blank is stripped from a str input, so such token strings
+        do not denote themselves and are not generated."""
+        if self.sep:
+            return True
+        names = [n for n, _ in toks]
+        if names and names[-1] == "SPACE":
+            return False
+        return all(not (a == "SPACE" and b == "SPACE") for a, b in zip(names, names[1:]))
+
+    def effective_skip(self, skip):
+        """The documented meaning of the constructor argument skip_tokens: None = the defaults (SPACE and
+        COMMENT when the tokenizer has them), any collection = exactly its members (an empty one: nothing)."""
+        if skip is None:
+            return self.default_skip
+        return frozenset(skip[1])
+
+
+# values of the constructor argument skip_tokens explored with blank_cfg: [python type, members] or None
+SKIP_OPTIONS = (None, ["set", []], ["list", []], ["tuple", []], ["set", ["SPACE"]], ["set", ["COMMENT"]],
+                ["list", ["SPACE", "COMMENT"]])
+
+
+def skip_value(skip):
+    if skip is None:
+        return None
+    return {"set": set, "list": list, "tuple": tuple}[skip[0]](skip[1])
+
+
+def blank_cfg():
+    """Tokenizer with SPACE and COMMENT groups whose tokens the harness writes explicitly (no separator
+    between tokens), for exploring the constructor option skip_tokens."""
+    return TokCfg("blank", r"(?P<SPACE>\s+)|(?P<COMMENT>%)|(?P<a>a)",
+                  [("a", "a"), ("SPACE", " "), ("COMMENT", "%")], sep="",
+                  default_skip=("SPACE", "COMMENT"))
 
 
 def letters_cfg(letters):
@@ -61,40 +102,71 @@ def kw_cfg():
 
 
 def cfg_from_key(key):
-    return kw_cfg() if key == "kw" else letters_cfg(key)
+    if key == "kw":
+        return kw_cfg()
+    if key == "blank":
+        return blank_cfg()
+    return letters_cfg(key)
 
 
 def all_inputs(cfg, max_len):
     """All token strings (tuples of (name, value)) of length <= max_len, shortest first."""
     out = []
     for n in range(max_len + 1):
-        out.extend(itertools.product(cfg.tokens, repeat=n))
+        out.extend(t for t in itertools.product(cfg.tokens, repeat=n) if cfg.valid_input(t))
     return out
 
 
 # ============================================================================ cases
+SEQ = "@seq"       # alternatives of a symbol defined by the template ProdSequence: (SEQ, sym1, sym2, ...)
+
+
+def is_seq(alts):
+    return bool(alts) and alts[0] == SEQ
+
+
 def to_case(cfg, start, prods, **extra):
-    d = {"cfg": cfg.key, "start": start, "prods": [[x, [list(a) for a in alts]] for x, alts in prods]}
+    d = {"cfg": cfg.key, "start": start,
+         "prods": [[x, {"seq": list(alts[1:])} if is_seq(alts) else [list(a) for a in alts]] for x, alts in prods]}
     d.update(extra)
     return d
 
 
 def from_case(case):
     cfg = cfg_from_key(case["cfg"])
-    prods = tuple((x, tuple(tuple(a) for a in alts)) for x, alts in case["prods"])
+    prods = tuple((x, (SEQ,) + tuple(alts["seq"]) if isinstance(alts, dict) else tuple(tuple(a) for a in alts))
+                  for x, alts in case["prods"])
     return cfg, case["start"], prods
+
+
+def expand(prods):
+    """-> (pm, seqs): pm = {X: alternatives} with every sequence symbol W = ProdSequence(s1..sk) written
+    out as its meaning  W -> s1 W | ... | sk W | eps  (any of the given symbols, any number, any order);
+    seqs = {W: set of its element symbols}.  In a returned tree a sequence node carries the matched
+    elements directly as its children."""
+    pm, seqs = {}, {}
+    for x, alts in prods:
+        if is_seq(alts):
+            seqs[x] = set(alts[1:])
+            pm[x] = tuple((s, x) for s in alts[1:]) + ((),)
+        else:
+            pm[x] = alts
+    return pm, seqs
 
 
 def show(prods, start=None):
     parts = []
     for x, alts in prods:
+        if is_seq(alts):
+            parts.append(f"{x}=ProdSequence({', '.join(alts[1:])})")
+            continue
         parts.append(f"{x}→" + " | ".join(" ".join(a) if a else "ε" for a in alts))
     s = "; ".join(parts)
     return s if start is None else f"[start {start}] {s}"
 
 
 def size_of(prods):
-    return sum(max(1, len(a)) for _, alts in prods for a in alts)
+    return sum(max(1, len(a)) for _, alts in prods if not is_seq(alts) for a in alts)
 
 
 # ============================================================================ LL(1) reference
@@ -302,11 +374,14 @@ def tree_shape(node, depth=0):
     return (node.name, v)
 
 
-def validate_tree(root, pm, terms, start, toks):
+def validate_tree(root, pm, terms, start, toks, seqs=None):
     """Derivation validator written from the statement of C01.
 
     root  : object with .name / .value (value: list of nodes, None, or str for a token leaf)
     pm    : user grammar {X: alternatives}; terms: terminal names; toks: ((name, value), ...) non-skipped
+    seqs  : {W: element symbols} for symbols the user defined as ProdSequence: the user's "production" of
+            W is "any of the given symbols, in any order"; its node carries the matched elements as a list
+            (possibly empty), which are read as its children.
     -> None when the tree is a valid derivation of ``toks`` from ``start``, else (label, detail).
     """
     if getattr(root, "name", None) != start:
@@ -321,7 +396,19 @@ def validate_tree(root, pm, terms, start, toks):
             return ("malformed-tree", "tree too large")
         name = getattr(node, "name", None)
         value = getattr(node, "value", None)
-        if name in pm:
+        if seqs and name in seqs:
+            if value is None:
+                continue
+            if not isinstance(value, list) or not all(hasattr(c, "name") for c in value):
+                return ("malformed-tree", f"value of sequence node {name} is {value!r}")
+            for c in value:
+                if c.name not in seqs[name]:
+                    if isinstance(c.name, str) and "__" in c.name:
+                        return ("helper-symbol-in-tree", f"sequence {name} contains {c.name}")
+                    return ("node-is-not-a-user-production", f"sequence {name} contains {c.name}")
+            for c in reversed(value):
+                stack.append((c, depth + 1))
+        elif name in pm:
             if value is None or (isinstance(value, list) and not value):
                 if () not in pm[name]:
                     return ("childless-node-without-empty-production", f"{name} has no children")
@@ -626,6 +713,74 @@ def family_split(terms, nts=("E", "A")):
                     continue
                 for ad in a_defs:
                     yield ((e, alts), (a, ad))
+
+
+def family_seq(terms, nts=("E", "W", "A")):
+    """C01 directed family "sequence under roll-back".
+
+    W : ProdSequence over one terminal, over two terminals, or over the non-terminal A (A -> w | v w)
+    E : every ordered choice of 2-3 distinct alternatives from a menu that mixes the sequence with leading
+        and trailing terminals (alternatives with different first symbols are not factorized, so the parser
+        rolls back from one into the other and enters the sequence again at a later token).
+    terms = (w, v, x, y).
+    """
+    e, wseq, a = nts
+    w, v, x, y = terms[:4]
+    menu = [(wseq,), (wseq, x), (wseq, y), (w, wseq), (w, wseq, x), (w, wseq, y), (x, wseq), (x, wseq, y),
+            (w, w, wseq, y), (wseq, x, wseq), (v, wseq, y)]
+    seq_defs = [((wseq, (SEQ, w)),), ((wseq, (SEQ, w, v)),),
+                ((wseq, (SEQ, a)), (a, ((w,), (v, w))))]
+    for sd in seq_defs:
+        for k in (2, 3):
+            for alts in itertools.permutations(menu, k):
+                yield ((e, alts),) + sd
+
+
+def family_diverge(terms, nts=("E", "A")):
+    """Directed family "group of three alternatives with one first symbol and non-monotone divergence":
+    two alternatives share a long prefix (pre + long), the third leaves it right behind pre; all six
+    orders (in some of them an EARLIER alternative diverges from the first at a smaller index than a LATER
+    one), pre = a terminal or the non-terminal A, optionally an unrelated alternative before / after.
+    terms = (p, a, b, c, d, x, y)."""
+    e, a = nts
+    p, ta, b, c, d, x, y = terms[:7]
+    for pre in ((p,), (a,)):
+        for long in ((b,), (b, c)):
+            for mid in ((d,), (d, d), ()):
+                group = (pre + long + (x,), pre + mid, pre + long + (y,))
+                for order in itertools.permutations(group):
+                    for extra in (None, "before", "after"):
+                        alts = order if extra is None else (((d, x),) + order if extra == "before"
+                                                            else order + ((d, x),))
+                        for ad in (((ta,),), ((), (ta,))):
+                            yield ((e, alts), (a, ad))
+
+
+def non_monotone_divergence(pm):
+    """True iff some symbol has >= 3 consecutive alternatives with the same first symbol in which an
+    earlier alternative diverges from the first of the run at a smaller index than a later one."""
+    def div(f, o):
+        for i, (s1, s2) in enumerate(zip(f, o)):
+            if s1 != s2:
+                return i
+        return None          # one is a prefix of the other
+    for alts in pm.values():
+        if is_seq(alts):
+            continue
+        i = 0
+        while i < len(alts):
+            j = i
+            while j + 1 < len(alts) and alts[i] and alts[j + 1][:1] == alts[i][:1]:
+                j += 1
+            run = alts[i:j + 1]
+            if len(run) >= 3:
+                ds = [div(run[0], o) for o in run[1:]]
+                for u in range(len(ds)):
+                    for w_ in range(u + 1, len(ds)):
+                        if ds[u] is not None and ds[w_] is not None and ds[u] < ds[w_]:
+                            return True
+            i = j + 1
+    return False
 
 
 def family_hidden(names, terms, max_prefix=2):
